@@ -19,6 +19,12 @@
 (*            image with every pending write persisted (all other subsets  *)
 (*            are covered by the invariant CrashSafe in every state)       *)
 (*   reader : BeginRead / EndRead around the writer's steps                *)
+(*   resize : open with FlagUpdMaxSize (file.go growFile/shrinkFile): an   *)
+(*            internal transaction that writes a header with the new limit *)
+(*            (ResizeHdr, ResizeSync), after a shrink followed by a forced *)
+(*            allocator commit that releases free pages beyond the limit   *)
+(*            from the end of the file; every later commit releases too    *)
+(*            (allocator.fileCommitAlloc / releaseOverflowPages)           *)
 (*                                                                         *)
 (* Allocation policy: lowest free page first for data and WAL pages,       *)
 (* highest first for list pages, the meta area grows by GrowBy pages taken *)
@@ -33,7 +39,8 @@ CONSTANTS NP,        \* page ids are 0 .. NP-1 (0, 1: headers)
           WALLimit,  \* checkpoint when the mapping would reach this size
           GrowBy,    \* pages moved into the meta area when it is exhausted
           MaxTx, MaxOps, Readers,
-          AbortAfterHeader   \* allow an abort after the header write was issued (a failed final sync)
+          AbortAfterHeader,  \* allow an abort after the header write was issued (a failed final sync)
+          Sizes              \* limits an open with FlagUpdMaxSize may set ({} = the limit never changes)
 
 VARIABLES ntx, nops, ver    \* bounds and the version counter for page contents
 
@@ -101,7 +108,8 @@ Op == nops' = nops + 1 /\ nops < MaxOps
 Begin ==
   /\ tx = NoTx /\ ntx < MaxTx
   /\ tx' = [pc |-> "body", root |-> cm.root, w |-> EmptyFn, new |-> {}, freed |-> {}, flushed |-> {},
-            walNew |-> EmptyFn, walRel |-> {}, mFreed |-> {}, mAlloc |-> {}, al0 |-> al, cs |-> None]
+            walNew |-> EmptyFn, walRel |-> {}, mFreed |-> {}, mAlloc |-> {}, al0 |-> al, cs |-> None,
+            force |-> FALSE]
   /\ ntx' = ntx + 1 /\ nops' = 0
   /\ lk' = [lk EXCEPT !.res = TRUE]
   /\ UNCHANGED <<cm, rds, al, wm, hdr, stats, dur, pend, cd, inflight, maybe, ver>>
@@ -210,7 +218,7 @@ CPrepare ==
          AppendAll(pw, S) == IF S = {} THEN pw ELSE LET p == MinOf(S) IN AppendAll(Append(pw, copies[p]), S \ {p})
          newMap == IF ckpt THEN tx.walNew ELSE merged
          upd == walChanged \/ ckpt
-         allocUpd == tx.new # {} \/ tx.freed # {} \/ tx.mAlloc # {} \/ tx.mFreed # {} \/ upd \/ al # tx.al0
+         allocUpd == tx.new # {} \/ tx.freed # {} \/ tx.mAlloc # {} \/ tx.mFreed # {} \/ upd \/ al # tx.al0 \/ tx.force
      IN
      /\ pend' = IF ckpt THEN AppendAll(pend, DOMAIN keep) ELSE pend
      /\ tx' = [tx EXCEPT !.pc = "prepared",
@@ -219,6 +227,9 @@ CPrepare ==
                                       \cup (IF allocUpd THEN al.flp ELSE {}),
                          !.cs = [map |-> newMap, walUpd |-> upd, allocUpd |-> allocUpd]]
   /\ UNCHANGED <<cm, rds, al, wm, hdr, lk, stats, dur, cd, inflight, maybe, ntx, nops, ver>>
+
+\* the pages of S at or beyond the limit that form a contiguous run up to the end marker
+Suffix(S, max, end) == {p \in S : p >= max /\ \A q \in p..(end - 1) : q \in S}
 
 \* take one list page from the end of the meta freelist
 MetaTakeHigh(a) ==
@@ -235,6 +246,17 @@ CAllocMeta ==
          tf == IF needF THEN MetaTakeHigh(tw.a) ELSE [ok |-> TRUE, p |-> 0, a |-> tw.a]
          mF == tf.a.mFree \cup tx.mFreed
          dF2 == tf.a.dFree \cup tx.freed
+         \* free pages beyond the limit are released from the end of the file: first the end of
+         \* the meta freelist (the data end marker follows if the meta area ends the file), then
+         \* the end of the data freelist
+         relM == Suffix(mF, al.max, tf.a.mEnd)
+         nM == Cardinality(relM)
+         mEnd1 == tf.a.mEnd - nM
+         dEnd1 == IF nM > 0 /\ tf.a.mEnd >= tf.a.dEnd THEN mEnd1 ELSE tf.a.dEnd
+         relD == Suffix(dF2, al.max, dEnd1)
+         nD == Cardinality(relD)
+         dEnd2 == dEnd1 - nD
+         mEnd2 == IF nD > 0 /\ mEnd1 >= dEnd2 THEN dEnd2 ELSE mEnd1
      IN
      /\ tw.ok /\ tf.ok
      /\ al' = tf.a
@@ -243,8 +265,12 @@ CAllocMeta ==
                          !.cs = [map |-> tx.cs.map, walUpd |-> tx.cs.walUpd, allocUpd |-> tx.cs.allocUpd,
                                  walPg |-> IF needW THEN tw.p ELSE (IF tx.cs.walUpd THEN 0 ELSE hdr.wal),
                                  flPg |-> IF needF THEN tf.p ELSE hdr.fl,
-                                 allocUpd2 |-> needF, dFree |-> dF2, mFree |-> mF,
-                                 dEnd |-> tf.a.dEnd, mEnd |-> tf.a.mEnd, mTot |-> tf.a.mTot]]
+                                 allocUpd2 |-> needF,
+                                 dFree |-> IF needF THEN dF2 \ relD ELSE dF2,
+                                 mFree |-> IF needF THEN mF \ relM ELSE mF,
+                                 dEnd |-> IF needF THEN dEnd2 ELSE tf.a.dEnd,
+                                 mEnd |-> IF needF THEN mEnd2 ELSE tf.a.mEnd,
+                                 mTot |-> IF needF THEN tf.a.mTot - nM ELSE tf.a.mTot]]
   /\ UNCHANGED <<cm, rds, wm, hdr, lk, stats, dur, pend, cd, inflight, maybe, ntx, nops, ver>>
 
 MapSeq(m) == LET RECURSIVE S(_) S(D) == IF D = {} THEN <<>> ELSE LET p == MinOf(D) IN <<<<p, m[p]>>>> \o S(D \ {p}) IN S(DOMAIN m)
@@ -287,6 +313,7 @@ CSwitch ==
   /\ DOMAIN rds = {}                         \* the exclusive lock: no reader is alive
   /\ LET c == tx.cs IN
      /\ al' = [al EXCEPT !.dFree = c.dFree, !.mFree = c.mFree,
+                         !.dEnd = c.dEnd, !.mEnd = c.mEnd, !.mTot = c.mTot,
                          !.flp = IF c.allocUpd2 THEN (IF c.flPg = 0 THEN {} ELSE {c.flPg}) ELSE @]
      /\ wm' = IF c.walUpd THEN [map |-> c.map, pgs |-> IF c.walPg = 0 THEN {} ELSE {c.walPg}] ELSE wm
      /\ hdr' = [slot |-> 1 - hdr.slot, txid |-> hdr.txid + 1, root |-> tx.root, fl |-> c.flPg, wal |-> c.walPg,
@@ -339,7 +366,46 @@ CrashRecover ==
   /\ stats' = [stats EXCEPT !.data = Cardinality(DOMAIN cm'.pages), !.meta = al'.mTot, !.metaUsed = al'.mTot - Cardinality(al'.mFree)]
   /\ UNCHANGED <<ntx, nops, ver>>
 
+(***************************************************************************)
+(* Open with FlagUpdMaxSize and a different limit (between transactions,   *)
+(* nobody else has the file open)                                          *)
+(***************************************************************************)
+ResizeHdr(m) ==
+  /\ tx = NoTx /\ DOMAIN rds = {} /\ pend = <<>> /\ ntx < MaxTx /\ m # al.max
+  /\ tx' = [pc |-> "rzhdr", root |-> cm.root, w |-> EmptyFn, new |-> {}, freed |-> {}, flushed |-> {},
+            walNew |-> EmptyFn, walRel |-> {}, mFreed |-> {}, mAlloc |-> {}, al0 |-> al, cs |-> [m |-> m],
+            force |-> TRUE]
+  /\ pend' = <<<<1 - hdr.slot, [k |-> "H", ok |-> TRUE, txid |-> hdr.txid + 1, root |-> hdr.root, fl |-> hdr.fl,
+                               wal |-> hdr.wal, dEnd |-> hdr.dEnd, mEnd |-> hdr.mEnd, mTot |-> hdr.mTot, max |-> m]>>>>
+  /\ inflight' = cm
+  /\ lk' = [lk EXCEPT !.res = TRUE, !.pe = TRUE]
+  /\ ntx' = ntx + 1 /\ nops' = 0
+  /\ UNCHANGED <<cm, rds, al, wm, hdr, stats, dur, cd, maybe, ver>>
+
+\* the header is durable: new limit in force; after a shrink the forced allocator commit follows
+\* if free pages border on an end marker beyond the limit (it is allowed to fail: Rollback)
+ResizeSync ==
+  /\ tx # NoTx /\ tx.pc = "rzhdr"
+  /\ LET m == tx.cs.m
+         shrink == m < al.max
+         canRel == \/ (al.dEnd > m /\ (al.dEnd - 1) \in al.dFree)
+                   \/ (al.mEnd > m /\ (al.mEnd - 1) \in al.mFree)
+         a2 == [al EXCEPT !.max = m]
+     IN
+     /\ dur' = Vol /\ pend' = <<>>
+     /\ hdr' = [hdr EXCEPT !.slot = 1 - hdr.slot, !.txid = hdr.txid + 1, !.max = m]
+     /\ al' = a2
+     /\ cd' = inflight /\ maybe' = {}
+     /\ IF shrink /\ canRel
+          THEN /\ tx' = [tx EXCEPT !.pc = "flushed", !.al0 = a2, !.cs = None]
+               /\ UNCHANGED <<lk, inflight>>
+          ELSE /\ tx' = NoTx /\ inflight' = None
+               /\ lk' = [lk EXCEPT !.res = FALSE, !.pe = FALSE]
+  /\ UNCHANGED <<cm, rds, wm, stats, ntx, nops, ver>>
+
 Next ==
+  \/ \E m \in Sizes : ResizeHdr(m)
+  \/ ResizeSync
   \/ Begin \/ AllocPage \/ Flush \/ Rollback
   \/ \E p \in 2..(NP - 1) : WritePage(p) \/ FreePage(p) \/ SetRoot(p)
   \/ SetRoot(0)
@@ -352,6 +418,14 @@ Spec == Init /\ [][Next]_xvars
 (***************************************************************************)
 (* Properties beyond the ones of TxCore.tla                                *)
 (***************************************************************************)
+\* C14: the file only ever grows within the limit in force (after a shrink it may stay
+\* larger than the new limit, but it never extends further)
+GrowsWithinLimit == [][End' > End => End' <= al'.max]_xvars
+\* C14: changing the limit does not touch the logical file
+\* (a crash in the middle is judged by CrashSafe: the recovered model may show contents where
+\* the model has undefined ones)
+ResizeKeepsModel == [][(tx # NoTx /\ tx.force /\ tx' # NoTx) => cm' = cm]_xvars
+
 \* C02: what a reader can read now (through the current mapping and disk) is its snapshot
 ReaderIsolation ==
   \A r \in DOMAIN rds :
